@@ -9,6 +9,18 @@ use crate::{
     record::codec::value::{Array, Float, Int8, Int16, Int32, Type, Value},
 };
 
+// § 6.3.3.3 "Type encoding: Floats" (2024-10-09): the missing, end-of-vector, and reserved bit
+// patterns are not values.
+pub fn validate_float(n: f32) -> io::Result<f32> {
+    match Float::from(n) {
+        Float::Value(_) => Ok(n),
+        v => Err(io::Error::new(
+            io::ErrorKind::InvalidInput,
+            format!("invalid float value: {v:?}"),
+        )),
+    }
+}
+
 pub fn write_value<W>(writer: &mut W, value: Option<Value<'_>>) -> io::Result<()>
 where
     W: Write,
